@@ -279,6 +279,7 @@ class Ctx:
         acc = self.acc
         state = dict(target=None, best=None, best_size=None, calls=0, t0=None)
         ctx = self
+        seen = set()
 
         @hypothesis.seed(self.seed_for(name))
         @settings(max_examples=n_examples, database=None, deadline=None, derandomize=False,
@@ -296,6 +297,14 @@ class Ctx:
                 if not shrinking:
                     acc.notes["generator_declined"] += 1
                 return
+            if not shrinking:
+                hk = h64(jdump(case))
+                if hk in seen:
+                    # Hypothesis' mutation of earlier examples often changes only bytes the generator
+                    # did not consume: an identical case is neither evaluated nor counted
+                    acc.notes["duplicate_cases_discarded"] += 1
+                    hypothesis.reject()
+                seen.add(hk)
             res = ctx.evaluate(case)
             if not shrinking:
                 acc.count(case, res)
